@@ -35,6 +35,8 @@ const reflectPrelude = `(declare-fun rv_kind (Int) Int)
 (declare-fun rv_addr (Int) Int)
 (declare-fun rv_resolve (Int) Int)
 (declare-fun kind_of_type (Int) Int)
+(declare-fun rt_ptrto (Int) Int)
+(declare-fun rt_elem (Int) Int)
 (declare-fun rv_depth (Int) Int)
 (define-fun rv_wraps ((v Int)) Bool (and (or (= (rv_kind v) 20) (= (rv_kind v) 22)) (not (rv_isnil v))))
 (define-fun rv_valid ((v Int)) Bool (not (= (rv_kind v) 0)))
@@ -133,6 +135,13 @@ func rvInv(v string) string {
 		// rv_resolve (jtypes.Resolve: strip non-nil Interface/Ptr wrappers) on a value that wraps nothing; chains are finite
 		implies(not(app("rv_wraps", v)), eq(app("rv_resolve", v), v)),
 		app("<=", "0", app("rv_depth", v)),
+		// one unfolding at a wrapper: Resolve looks through it; what a non-nil pointer points to has the pointer
+		// type's element type; a valid Value's kind is the kind of its type
+		implies(app("rv_wraps", v), and(eq(app("rv_resolve", v), app("rv_resolve", app("rv_elem", v))), app("rv_valid", app("rv_elem", v)),
+			implies(not(app("rv_wraps", app("rv_elem", v))), eq(app("rv_resolve", app("rv_elem", v)), app("rv_elem", v))),
+			implies(eq(app("rv_kind", v), "22"), eq(app("rv_type", app("rv_elem", v)), app("rt_elem", app("rv_type", v)))),
+			eq(app("kind_of_type", app("rv_type", app("rv_elem", v))), app("rv_kind", app("rv_elem", v))))),
+		implies(app("rv_valid", v), eq(app("kind_of_type", app("rv_type", v)), app("rv_kind", v))),
 		// an invalid Value is not nil-able, addressable or settable; a settable one is addressable
 		implies(app("rv_canset", v), app("rv_canaddr", v)),
 		implies(app("rv_canaddr", v), app("rv_valid", v)))
@@ -256,9 +265,8 @@ func (x *vc) reflectModel(fr *frame, st *state, callee *ssa.Function, args []Val
 		need("Type", app("rv_valid", v), "receiver must be valid")
 		r := x.freshResult(st, resT, "rvtype")
 		// the reflect.Type descriptor of v's type: identified with the type tag (rtype_id), never nil
-		x.needDecl("(declare-fun rtype_id (Iface) Int)")
-		x.assume(st.guard, and(eq(app("rtype_id", r.T), app("rv_type", v)), not(eq(app("itag", r.T), "0")), not(eq(app("ival", r.T), "0")),
-			eq(app("kind_of_type", app("rv_type", v)), kind(v))))
+		x.rtypeCanon(st.guard, r.T, app("rv_type", v))
+		x.assume(st.guard, eq(app("kind_of_type", app("rv_type", v)), kind(v)))
 		return r, true
 	case "(reflect.Value).MapIndex":
 		need("MapIndex", eq(kind(v), "21"), "receiver must be a Map")
@@ -318,7 +326,9 @@ func (x *vc) reflectModel(fr *frame, st *state, callee *ssa.Function, args []Val
 	case "(reflect.Value).Addr":
 		need("Addr", app("rv_canaddr", v), "receiver must be addressable")
 		r := x.define("rvaddr", sInt, app("rv_addr", v))
-		x.assume(st.guard, and(rvInv(r), eq(kind(r), "22"), not(app("rv_isnil", r)), eq(app("rv_canif", r), app("rv_canif", v)), eq(app("rv_elem", r), v)))
+		x.needRType()
+		x.assume(st.guard, and(rvInv(r), eq(kind(r), "22"), not(app("rv_isnil", r)), eq(app("rv_canif", r), app("rv_canif", v)), eq(app("rv_elem", r), v),
+			eq(app("rv_type", r), app("rt_ptrto", app("rv_type", v)))))
 		return Val{T: r, Typ: resT}, true
 	case "(reflect.Value).Convert":
 		need("Convert", app("rv_valid", v), "receiver must be valid (and convertible to the target type: not modelled)")
@@ -374,9 +384,9 @@ func (x *vc) reflectModel(fr *frame, st *state, callee *ssa.Function, args []Val
 	case "reflect.TypeOf":
 		// nil for the nil interface, else the descriptor of the dynamic type
 		r := x.freshResult(st, resT, "rtypeof")
-		x.needDecl("(declare-fun rtype_id (Iface) Int)")
-		x.assume(st.guard, and(eq(eq(r.T, "(mkiface 0 0)"), eq(args[0].T, "(mkiface 0 0)")),
-			implies(not(eq(args[0].T, "(mkiface 0 0)")), and(eq(app("rtype_id", r.T), app("itag", args[0].T)), not(eq(app("ival", r.T), "0"))))))
+		x.needRType()
+		x.assume(st.guard, eq(eq(r.T, "(mkiface 0 0)"), eq(args[0].T, "(mkiface 0 0)")))
+		x.rtypeCanon(and(st.guard, not(eq(args[0].T, "(mkiface 0 0)"))), r.T, app("itag", args[0].T))
 		return r, true
 	case "reflect.SliceOf", "reflect.PtrTo", "reflect.PointerTo", "reflect.MapOf":
 		r := x.freshResult(st, resT, "rtype")
